@@ -235,7 +235,7 @@ fn dense_additive<F: FftField + PrimeField>(rep: &mut Report, rng: &mut Rng, arg
     }
     rep.config(fname);
     let maxlen = args.pick(71, 601);
-    for _ in 0..args.pick(20_000, 250_000) / shards {
+    for _ in 0..args.pick(60_000, 250_000) / shards {
         let (p, q, rel) = gen_pair::<F>(rng, maxlen);
         let pts = points::<F>(rng);
         let nontriv = !p.is_empty() || !q.is_empty();
@@ -338,7 +338,7 @@ fn dense_mul<F: FftField + PrimeField>(rep: &mut Report, rng: &mut Rng, args: &A
     rep.require("product with a zero operand");
     let maxlen = args.pick(71, 601);
     let par = par_of::<F>();
-    for it in 0..args.pick(6000, 40_000) / shards {
+    for it in 0..args.pick(15_000, 40_000) / shards {
         let (mut p, mut q, rel) = gen_pair::<F>(rng, maxlen);
         if it % 5 == 0 && !p.is_empty() && !q.is_empty() {
             // force a long product in the quick tier too
@@ -390,7 +390,7 @@ fn dense_div<F: FftField + PrimeField>(rep: &mut Report, rng: &mut Rng, args: &A
         rep.require(c);
     }
     let maxlen = args.pick(71, 401);
-    for _ in 0..args.pick(8000, 60_000) / shards {
+    for _ in 0..args.pick(24_000, 60_000) / shards {
         // dividends built as q0*b + r0 half of the time so that exact divisions and short remainders occur
         let (l1, l2, l3) = (gen_len(rng, maxlen / 2), gen_len(rng, maxlen / 2), gen_len(rng, maxlen));
         let b: Vec<F> = match rng.next_u32() % 6 {
@@ -655,7 +655,7 @@ fn mixes<F: FftField + PrimeField>(rep: &mut Report, rng: &mut Rng, args: &Args,
         rep.require(c);
     }
     let maxlen = args.pick(71, 301);
-    for _ in 0..args.pick(20_000, 250_000) / shards {
+    for _ in 0..args.pick(60_000, 250_000) / shards {
         let lp = gen_len(rng, maxlen);
         let p: Vec<F> = rand_poly(rng, lp);
         let mut s: Vec<(usize, F)> = gen_sparse(rng, maxlen + 20);
@@ -867,7 +867,7 @@ fn sparse_additive<F: FftField + PrimeField>(rep: &mut Report, rng: &mut Rng, ar
         rep.require(c);
     }
     let maxdeg = args.pick(70, 600);
-    for _ in 0..args.pick(25_000, 300_000) / shards {
+    for _ in 0..args.pick(75_000, 300_000) / shards {
         let (a, b, rel) = gen_sparse_pair::<F>(rng, maxdeg);
         let (am, bm) = (from_terms(&a), from_terms(&b));
         let pts = points::<F>(rng);
@@ -946,7 +946,7 @@ fn sparse_mul<F: FftField + PrimeField>(rep: &mut Report, rng: &mut Rng, args: &
     rep.require("sparse product with a zero operand");
     rep.require("sparse evaluate: degree 0");
     let maxdeg = args.pick(70, 600);
-    for it in 0..args.pick(20_000, 250_000) / shards {
+    for it in 0..args.pick(60_000, 250_000) / shards {
         let (mut a, mut b, mut rel) = gen_sparse_pair::<F>(rng, maxdeg);
         if it % 4 == 0 {
             // (u x^i + v x^j)(u x^i - v x^j): the x^(i+j) terms cancel
